@@ -1002,7 +1002,9 @@ pub fn gen_op(s: &Solo, r: &mut Rng, prof: &GenProfile) -> Op {
                 return Op::Connack { sp, rc };
             }
             if x < 90 {
-                return Op::Pub { qos: r.range(1, 2) as u8, topic: r.below(3) as u8, alias: 0, pad: 0, fail: false };
+                // queued before CONNACK; sometimes with a topic alias (binds it without sending it)
+                let alias = if cfg.wire_v == 5 && r.chance(1, 3) { 1 } else { 0 };
+                return Op::Pub { qos: r.range(1, 2) as u8, topic: r.below(3) as u8, alias, pad: 0, fail: false };
             }
             if x < 95 && cfg.f_loss {
                 return Op::Close { partial: 0 };
